@@ -273,7 +273,7 @@ def _work(args):
 
 def check(run):
     common.import_repo()
-    res = tlc.run('MC_GroView', MC_CFG % run.tier, run.scratch, workers=16, timeout=3000)
+    res = tlc.run('MC_GroView', MC_CFG % run.tier, run.scratch, workers=16, timeout=9000)
     tlc.check_ok(res, 'MC_GroView', need_actions=['IterNew', 'IterNext', 'Get', 'Slice'])
     run.add_tlc(res, 'GroView exhaustive (%s bounds): ParseIsRuns, Tiling, AccessIsAbs, IterIsAbs, CursorInFile' % run.tier)
     items = []
